@@ -78,16 +78,31 @@ def ftok(x):
     return content.f64tok(float(x))
 
 
-def build_file(vals, dtype, user=None, window=None):
+def build_file(vals, dtype, user=None, window=None, routes=None, indexed=True):
     df = DLISFile(set_identifier='IDX', max_record_length=8192)
     lf = df.add_logical_file()
     lf.add_origin('O', file_set_number=1, creation_time='2020/01/01 00:00:00')
     idx = np.array([float(v) for v in vals], dtype=dtype)
     c0 = lf.add_channel('DEPTH', data=idx, units='m')
     c1 = lf.add_channel('X', data=np.arange(len(vals), dtype=np.float32))
-    kw = dict(index_type='BOREHOLE-DEPTH')
-    kw.update(user or {})
-    lf.add_frame('FR', channels=[c0, c1], **kw)
+    from dliswriter import AttrSetup
+    kw = dict(index_type='BOREHOLE-DEPTH') if indexed else {}
+    later = {}
+    for k, v in (user or {}).items():
+        route = (routes or {}).get(k, 'plain')
+        if route == 'dict':
+            kw[k] = {'value': v}
+        elif route == 'setup':
+            kw[k] = AttrSetup(value=v)
+        elif route == 'setup-units':
+            kw[k] = AttrSetup(value=v, units='m')
+        elif route == 'later':
+            later[k] = v
+        else:
+            kw[k] = v
+    fr = lf.add_frame('FR', channels=[c0, c1], **kw)
+    for k, v in later.items():
+        getattr(fr, k).value = v
     return df
 
 
@@ -184,21 +199,30 @@ def run(tier):
                             chk.fail('index:spacing-with-nan', case, f'SPACING written as {a["SPACING"]["vals"]} although the '
                                                                     f'index differences of the rows written are not uniform')
         # user-supplied values are written unchanged
-        for _ in range(20 if tier == 'quick' else 200):
-            vals = [Fraction(R.randrange(0, 50)) for _ in range(R.choice([1, 3, 4]))]
-            user = {}
+        for _ in range(80 if tier == 'quick' else 600):
+            # index values never start, end or step at zero: a supplied zero differs from every derived value
+            vals = [Fraction(R.randrange(3, 50)) for _ in range(R.choice([1, 3, 4]))]
+            if R.random() < 0.4:
+                vals = [Fraction(10 + 2 * i) for i in range(R.choice([3, 4]))]        # uniform: a spacing would be derived
+            user, routes = {}, {}
             if R.random() < 0.6:
-                user['index_min'] = R.choice([-5.5, 0, 123.25])
+                user['index_min'] = R.choice([-5.5, 0, 0.0, 123.25])
             if R.random() < 0.6:
-                user['index_max'] = R.choice([77.0, 1e6])
+                user['index_max'] = R.choice([77.0, 1e6, 0, 0.0])
             if R.random() < 0.5:
-                user['spacing'] = R.choice([0.5, -2.0, 7])
+                user['spacing'] = R.choice([0.5, -2.0, 7, 0, 0.0])
             if R.random() < 0.4:
                 user['direction'] = R.choice(['INCREASING', 'DECREASING'])
-            df = build_file(vals, R.choice(['float64', 'int32', 'uint8']), user=user)
+            for k_ in user:
+                routes[k_] = R.choice(['plain', 'dict', 'setup', 'later'] + (['setup-units'] if k_ != 'direction' else []))
+            indexed = R.random() < 0.75
+            if not indexed:
+                user.pop('direction', None)
+            df = build_file(vals, R.choice(['float64', 'int32', 'uint8']), user=user, routes=routes, indexed=indexed)
             st, err = call(df.write, path, output_chunk_size=2**20)
-            case = {'index_values': [str(v) for v in vals], 'user_supplied': user}
-            chk.case('user-values', nontrivial_key=('user', tuple(vals), tuple(sorted(user.items()))))
+            case = {'index_values': [str(v) for v in vals], 'user_supplied': user, 'routes': routes,
+                    'index_type': 'BOREHOLE-DEPTH' if indexed else None}
+            chk.case('user-values', nontrivial_key=('user', tuple(vals), tuple(sorted(user.items())), tuple(sorted(routes.items())), indexed))
             if st != 'ok' or not bres.ok:
                 continue
             a = frame_attrs(model, open(path, 'rb').read())
